@@ -11,7 +11,23 @@ claim('C08',
       'Trusted: python ast, the E1 type inference over the repository annotations, determinism of CPython apart '
       'from the enumerated sources. Values typed Any are followed through parameter/return/field taint only.')
 
+claim('C12',
+      'ownership/mutation analysis over python ast: receiver roots by copy propagation with a path-indexed heap for '
+      'fresh objects, mutates-self / mutates-parameter / returns-alias / stores-into-self summaries to a fixpoint, '
+      'judged at every mutation site reachable from the build entry points; plus structural rules on Builder state '
+      'and the six create_header calls',
+      'Static rule set: every mutation site reachable from Builder.build and the six create_header functions has a '
+      'receiver allocated by the build itself - never (a part of) the configuration or the parsed model, never a '
+      'module-level object, never an object of unknown provenance whose static type is an input type; rendering '
+      'functions do not mutate their receiver; text buffers never alias caller data; no module/class level mutable '
+      'state; Builder keeps only _recipe, assigned before it is read; the support files in the result are the '
+      'unmodified results of the six stand-alone generators called with the configured prefix. These are necessary '
+      'and (together with C08) sufficient structural conditions for independence of builds; equality of outputs as '
+      'values is not computed.',
+      'Trusted: python ast, E1 type inference, the language-level immutability of str/int/enum values. The heap '
+      'abstraction is k-limited (paths of length 6) and field-sensitive only for fresh objects.')
+
 _pending = 'check not built yet in this round (design in DESIGN.md section 3); will be claimed when its rules run clean'
-for _p in ['C01', 'C02', 'C03', 'C04', 'C05', 'C06', 'C07', 'C09', 'C10', 'C11', 'C12', 'C13', 'C14', 'C15', 'C16',
+for _p in ['C01', 'C02', 'C03', 'C04', 'C05', 'C06', 'C07', 'C09', 'C10', 'C11', 'C13', 'C14', 'C15', 'C16',
            'C17', 'C18', 'C19', 'C20']:
     na(_p, _pending)
